@@ -107,6 +107,16 @@ class C01Ledger(Monitor):
                              and not getattr(o, 'hole_cards', None)), None)
                 tag = ':nobody_left' if type(last).__name__ == 'HoleCardsShowingOrMucking' else \
                     f':nobody_left_after_{type(last).__name__}'
+                if type(last).__name__ == 'HandKilling':
+                    # everybody who was killed had tabled only part of his hand (cash game): he kept the rest to
+                    # himself, which leaves him without a hand like a muck does - finding F12d, not F24's lone survivor
+                    killed = [o.player_index for o in s.operations if type(o).__name__ == 'HandKilling']
+                    partial = {o.player_index for o in s.operations if type(o).__name__ == 'HoleCardsShowingOrMucking'
+                               and o.hole_cards and not all(o.hole_cards)}
+                    whole = {o.player_index for o in s.operations if type(o).__name__ == 'HoleCardsShowingOrMucking'
+                             and o.hole_cards and all(o.hole_cards)}
+                    if killed and all(i in partial and i not in whole for i in killed):
+                        tag = ':nobody_left_after_partial_shows'
             if any(p.unraked_amount for p in pots):
                 self.report('terminal_pots', 'terminal_pots' + tag, repr(pots))
             if sum(s.payoffs) != -sum(p.raked_amount for p in pots):
